@@ -151,8 +151,12 @@ def run_spec_search(ctx, rng, ntrees, npats, on_case=None, cfgs=CFGS, tree_size=
                         elif extra and not missing and c['matchbase'] and c['follow'] and c['globstarlong'] and \
                                 all(sg in ('g', 'G') for sg in pp.split(':')[1].split('/')) and len(pp.split(':')[1].split('/')) > 1:
                             kid = 'C05-matchbase-merged-globstars'
+                        elif missing and not extra and any(sg.startswith(('xS', 'xP')) for sg in pp.split(':')[1].split('/')) and \
+                                all(any('.' in part[1:] for part in x.split('/')) for x in missing):
+                            # a repeated group at the start of a segment re-applies its dot guard on later iterations
+                            kid = 'C01-group-dot-guard-repeat'
                         if kid and ctx.is_known(lambda e, kid=kid: e['id'] == kid):
-                            known.setdefault(kid, (pattern, corr.flag_names(fv), sorted(extra)[:3]))
+                            known.setdefault(kid, (pattern, corr.flag_names(fv), sorted(extra)[:3] if extra else 'nothing for %r' % sorted(missing)[:3]))
                         else:
                             ctx.counterexample(
                                 'glob(%r, %s): %s' % (pattern, corr.flag_names(fv),
